@@ -21,6 +21,7 @@ def run(chk):
     r05e(chk, tt)
     r04c(chk, 'R05.f')
     r05g(chk, tt)
+    r05h(chk)
 
 
 def r05a(chk, rid='R05.a'):
@@ -66,6 +67,40 @@ def r05a(chk, rid='R05.a'):
                         for tn in ([t] if not isinstance(t, (ast.Tuple, ast.List)) else t.elts):
                             if isinstance(tn, ast.Name):
                                 names.add(tn.id)
+        # which names feed the line/col bookkeeping (through locals defined in the block)?
+        ynames = set()
+        for st in block:
+            for y in ast.walk(st):
+                if isinstance(y, ast.Yield) and isinstance(y.value, ast.Tuple) and len(y.value.elts) == 4:
+                    ynames |= {x.id for x in y.value.elts[:2] if isinstance(x, ast.Name)}
+        feeds = set()
+        work = ['line', 'col']
+        seen_defs = set()
+        while work:
+            v = work.pop()
+            for st in block:
+                for x in ast.walk(st):
+                    tg = None
+                    if isinstance(x, ast.Assign):
+                        tg = [t for t in x.targets for t in ([t] if not isinstance(t, (ast.Tuple, ast.List)) else t.elts)]
+                    elif isinstance(x, ast.AugAssign):
+                        tg = [x.target]
+                    if tg and any(isinstance(t, ast.Name) and t.id == v for t in tg) and id(x) not in seen_defs:
+                        seen_defs.add(id(x))
+                        used = {n_.id for n_ in ast.walk(x.value) if isinstance(n_, ast.Name)}
+                        # conditions the definition is control-dependent on, inside the block
+                        holder = m.parents.get(p.stmt)
+                        par = m.parents.get(x)
+                        while par is not None and par is not holder and not isinstance(par, ast.FunctionDef):
+                            if isinstance(par, ast.If):
+                                used |= {n_.id for n_ in ast.walk(par.test) if isinstance(n_, ast.Name)}
+                            par = m.parents.get(par)
+                        feeds |= used
+                        work.extend(u for u in used if u not in ('line', 'col', 'self', 'found', 'len', 'pos'))
+        dep = sorted(feeds & ynames)
+        if ynames and text(p.stmt) != 'pos += 1':
+            chk.ob(rid, TOK, 'Tokenizer.tokenize', f'`{text(p.stmt)}`: line/col are computed from the matched text alone, not from the token type or its decoded value', not dep,
+                   f'the bookkeeping depends on {dep}: every token kind can contain a line feed (an escape such as \\44 may be ended by one), so line numbers drift for the kinds that are treated differently')
         need = {'col'} if text(p.stmt) == 'pos += 1' else {'col', 'line'}
         chk.ob(rid, TOK, 'Tokenizer.tokenize', f'`{text(p.stmt)}`: {sorted(need)} updated in the same block',
                need <= names, f'only {sorted(names & {"line", "col"})} are updated beside the position')
@@ -330,3 +365,29 @@ def r05g(chk, tt, rid='R05.g'):
     name = rx.compile_nfa('(?:(?:%s)+)' % LEXICAL['nmchar'], tt.flags)
     eq, w = rx.equivalent(tt.macro_nfa('name'), name)
     chk.ob(rid, PRODS, 'MACROS', 'macro {name} = nmchar+', eq, f'differs on {w!r}')
+
+
+
+def r05h(chk, rid='R05.h'):
+    chk.rule(rid, 'the position helpers of the tokenizer, decided by evaluation: has_at(text, pos, s) and suffix_eq(text, pos, s) are evaluated on their syntax trees for all strings over a two-letter alphabet up to length four, every position and every pattern up to length three (the functions only compare characters, so two letters exhaust their behaviour): has_at is exactly text[pos:pos+len(s)] == s and suffix_eq exactly text[pos:] == s')
+    import itertools
+
+    from sa.absint import Evaluator, Raised
+
+    m = chk.repo.mod(TOK)
+    words = [''.join(w) for n in range(0, 5) for w in itertools.product('ab', repeat=n)]
+    pats = [w for w in words if len(w) <= 3]
+    for name, spec in (('has_at', lambda t, p, s: t[p:p + len(s)] == s), ('suffix_eq', lambda t, p, s: t[p:] == s)):
+        fn = m.get(name)
+        params = [a.arg for a in fn.args.args]
+        ev = Evaluator(fn, module=m)
+        n = 0
+        bad = []
+        for t in words:
+            for p_ in range(0, len(t) + 1):  # positions inside the text or at its end
+                for s_ in pats:
+                    got = ev.run(**dict(zip(params, (t, p_, s_))))
+                    n += 1
+                    if isinstance(got, Raised) or bool(got) != spec(t, p_, s_):
+                        bad.append(f'{name}({t!r}, {p_}, {s_!r}) gives {got!r}')
+        chk.ob(rid, TOK, name, f'all {n} cases agree with the slice comparison it stands for', not bad, f'{len(bad)} differ, e.g. {bad[:2]}: the end-of-input completion of strings and comments fires in the middle of the text (or not at its end)')
